@@ -332,12 +332,14 @@ TOKENRULES2 = (" Verif.Props.TokenRules2 (264 theorems; faithful models of MD023
 LISTRULES = (" Verif.Props.ListRules (faithful models of ContainerTokenManager, MD007 and MD006, scan + fix; 2.4 M comparisons thorough, every executable line of the three modules hit; "
              "MD005 is not modelled): ")
 EXTRA2 = {
- "C03": [LEAFBLOCKS2 + "html_end_spec (kinds 2-5, iff), html_end_spec_blank, html_end_spec_partial + html_end_excluded (</PRE>), type7_no_interrupt, fence_content_spec_partial, icode_content_spec, icode_not_eligible; html_start_spec is stated and FALSE as an equality (witnesses: <-> , <1 a>, <a B>, <a 1>, KELVIN <linK>) — totality, locality and no-interrupt are the proved parts, the tie compares with the specification on the whole space and reports the difference classes.",
+ "C03": [" Verif.Props.ListStarts2: list_start_two_lists_columns (the limit is always 3 + parent indent), list_start_two_lists_spec_partial / _ordered_spec_partial (verdict <=> ItemStart counted from the inner / outer / column-0 base under TwoAgree) with list_start_two_lists_excluded ('- a\\n  - b\\n        - c': double-counted parent indent, arguments recorded from the real parser), content_column_spec2_partial, content_column_block_quote_spec_partial, content_column_tab_excluded.",
+         LEAFBLOCKS2 + "html_end_spec (kinds 2-5, iff), html_end_spec_blank, html_end_spec_partial + html_end_excluded (</PRE>), type7_no_interrupt, fence_content_spec_partial, icode_content_spec, icode_not_eligible; html_start_spec is stated and FALSE as an equality (witnesses: <-> , <1 a>, <a B>, <a 1>, KELVIN <linK>) — totality, locality and no-interrupt are the proved parts, the tie compares with the specification on the whole space and reports the difference classes.",
          LISTSTARTS + "list_start_spec (accepts exactly the CommonMark marker sentence; marker_sentence_is_leanmark ties the sentence to LeanMark's listMarker?), "
          "list_start_decomposition (the verdict for any stack), same_list_spec (5.3: same bullet character / delimiter continues the list), interrupt_spec_partial + interrupt_excluded "
          "('a\\n01. b': is_not_one compares the text with \"1\"), content_column_spec_partial + two excluded witnesses recorded from real runs ('- -   \\n    a' gives indent 6, spec 4), "
          "list_start_nested_spec_partial + witness ('- a\\n      - c' becomes a nested list: the parent indent is counted twice), first_item_clause_inert (dead logic), columns_conserved."],
- "C01": [" Verif.Props.InlineLoop2: index_any_of_literal (the literal Python loop of ParserHelper.index_any_of = the model's first-hit definition = a position scan, all inputs).",
+ "C01": [" Verif.Props.ListStarts2: list_start_total_tabs (corollary of list_start_total / pre_list_total for lines with TABs), leading_space_move_conserves / pre_list_leads_conserved (the non-empty per-line prefixes of the block-quote tokens are conserved as a multiset by the leading-space move; order and empty lines are not: two proved witnesses).",
+         " Verif.Props.InlineLoop2: index_any_of_literal (the literal Python loop of ParserHelper.index_any_of = the model's first-hit definition = a position scan, all inputs).",
          LEAFBLOCKS2 + "html_block_total (+ html_block_total_excluded), html_normal_range, html_special_local.",
          LISTSTARTS + "list_start_total (every Int start index, guard StackOK, list_start_excluded witnesses), pre_list_total / pre_list_excluded, close_required_total, "
          "close_required_prefix, can_remove_total, can_close_terminates; root cause of the call-site finding F-TOK-AE-handle_list_nesting located (stack_count >= current_count + 2 runs "
@@ -364,7 +366,8 @@ EXTRA2 = {
          "position), with the full statement PROVED FALSE for the code by positions_excluded_multiline / positions_excluded_setext — the root causes of the known family F-C05-INLINECOL "
          "(an element spanning a line break does not advance the paragraph's per-line indentation index; setext heading after a hard break counts the indentation twice; the code-span "
          "column delta ignores the paragraph's leading white space)."],
- "C06": [" Verif.Props.ScanRules2b: md032_scan_iff (under the guard Safe032; the condition is stated over the containers still on the rule's stack, which keeps a list that ended after a blank line: md032_never_popped), md018/md020_scan_iff_partial (one-paragraph files), md013_faithful_eq_spec_partial + md013_faithful_differs_stern.",
+ "C06": [" Verif.Props.ScanRules1b: md042 / md045 / md041_faithful_eq_spec_stream (whole report list = the reference condition on explicitly extracted elements; difference classes proved: U+00A0, U+000B, <H1>, trailing '<h1 '), md026_faithful_eq_spec_exact (iff; the verdicts differ exactly when the text ends in a configured ';' that closes a character reference: md026_differs 'a&#33;'), md022_above_closed_form / md022_verdict_closed_form (no recursive notion for container-free streams) with md022_closed_form_excluded.",
+         " Verif.Props.ScanRules2b: md032_scan_iff (under the guard Safe032; the condition is stated over the containers still on the rule's stack, which keeps a list that ended after a blank line: md032_never_popped), md018/md020_scan_iff_partial (one-paragraph files), md013_faithful_eq_spec_partial + md013_faithful_differs_stern.",
          TOKENRULES2 + "mdX_scan_iff and mdX_faithful_eq_spec (or _partial + proved witness, each run on the real rule) for MD023 MD030 MD037 MD044 MD046.",
          SCANRULES2 + "mdX_scan_iff for MD013 and MD011 (under the guard that leaf / blank-line tokens start on increasing lines: the governing token of a line is the last such token starting at or before it), MD014 MD034 MD028 (every stream), MD033 (when the assert cannot fail); MD018 MD020 MD032: model + tie + excluded points (md032_stack_leak).",
          SCANRULES + "mdX_scan_iff (reports <=> a sentence-shaped condition over the stream; unconditional for MD003 MD022 MD025 MD040 MD042 MD045, under a guard every parsed stream "
@@ -375,7 +378,8 @@ EXTRA2 = {
          SCANRULES2 + "mdX_reports_in_range for MD013 MD011 MD014 MD033 MD034 (adjust034_bounds), mdX_total for MD014 MD028 MD034 (every file) and MD013 MD011 MD033 (under their guards); excluded points that are real crashes: md033_excluded (<h1 </h1>), md011_excluded / md013_excluded (a one-line pragma document: empty leaf-token list).",
          SCANRULES + "mdX_reports_in_range for all ten (every report's (line, column) is the position, or for a SetExt heading the original position, of a token of the stream of the named "
          "kind; md026_delta_bounds for MD026's computed deltas)."],
- "C12": [" Verif.Props.ScanRules2b: allNine_projection (each of the nine rules alone returns exactly its share of the joint list, same order, token and line pass), md018_scan_reads, md020_scan_reads.",
+ "C12": [" Verif.Props.ScanRules1b: md041_scan_reads_exact, md036_scan_reads_exact (line and column of the remembered token only), md041_md036_position_read.",
+         " Verif.Props.ScanRules2b: allNine_projection (each of the nine rules alone returns exactly its share of the joint list, same order, token and line pass), md018_scan_reads, md020_scan_reads.",
          SCANRULES2 + "mdX_scan_reads for MD011 MD013 MD014 MD028 MD032 MD033 MD034.",
          SCANRULES + "allTen_projection (in the joint pass each rule's share of the report list is exactly what it reports alone, same order), mdX_scan_reads (the verdict depends only on the "
          "named token kinds / fields)."],
